@@ -64,11 +64,18 @@ func (p *propCfg) Legs(tier string) []legCfg {
 	return p.Quick
 }
 
+// caseTimeout: how long a worker may take to answer one case before the case counts as a hang. Generous on purpose:
+// a case is up to a few hundred real executions, the machine may be busy with other checks, and a hang stays a hang
+// however long one waits for it (quick 60 s; thorough, whose cases run ten times as many executions, 240 s).
 func (p *propCfg) caseTimeout() time.Duration {
-	if p.CaseTimeout == 0 {
-		return 20 * time.Second
+	d := p.CaseTimeout
+	if d == 0 {
+		d = 60 * time.Second
 	}
-	return p.CaseTimeout
+	if tier == "thorough" {
+		d *= 4
+	}
+	return d
 }
 
 var baseAssumptions = []string{
@@ -214,9 +221,9 @@ var props = map[string]*propCfg{
 	},
 	"C04": {
 		ID: "C04", Level: "model_checking", Exhaustive: true,
-		Rule:        "TLC enumerates every pair of tables of 0..MaxRows rows (quick: <= 1 row per side with all 50 ON expressions and <= 2 rows with a core of 7; thorough: <= 2 rows with all 50 and <= 3 rows with the core) (two join columns per side - a number and a string - whose names sort differently on the two sides, duplicate keys, with Wide strings containing the key-text separator, with Big the numeric keys 2^24 and 2^24 + 1; Many: two pairs of fixed long tables with 37 / 40 against 35 / 33 partly overlapping keys) x 50 ON expressions (every comparison operator in both orientations on the numeric pair, =, !=, < on the string pair, AND / OR of two comparisons in either order and orientation, one column compared twice) x {INNER, LEFT, RIGHT}, and checks that the operational models of the hash join and of the nested loop (Joins.tla) are bag-equal to the textbook join for every strategy Join.Exec can choose. Each case is executed under every spelling of the strategy (JOIN, INNER JOIN, HASH_JOIN, STRAIGHT_JOIN, PARALLEL JOIN, PARALLEL HASH_JOIN, PARALLEL STRAIGHT_JOIN; LEFT / RIGHT x {JOIN, HASH_JOIN, PARALLEL JOIN, PARALLEL HASH_JOIN}; PARALLEL ones three times; every run once more with the left side's numeric keys held as Go ints against float64 on the right) and the result compared as a multiset with the exported textbook result. Non-trivial: non-empty join result; distinct = distinct (tables, ON, type).",
+		Rule:        "TLC enumerates every pair of tables of 0..MaxRows rows (quick: <= 1 row per side with all 50 ON expressions and <= 2 rows with a core of 7; thorough: <= 2 rows with all 50 and <= 3 rows with the core) (two join columns per side - a number and a string - whose names sort differently on the two sides, duplicate keys, with Wide strings containing the key-text separator, with Big the numeric keys 2^24 and 2^24 + 1; Many: two pairs of fixed long tables with 37 / 40 against 35 / 33 partly overlapping keys) x 50 ON expressions (every comparison operator in both orientations on the numeric pair, =, !=, < on the string pair, AND / OR of two comparisons in either order and orientation, one column compared twice) x {INNER, LEFT, RIGHT}, and checks that the operational models of the hash join and of the nested loop (Joins.tla) are bag-equal to the textbook join for every strategy Join.Exec can choose. Each case is executed under every spelling of the strategy (JOIN, INNER JOIN, HASH_JOIN, STRAIGHT_JOIN, PARALLEL JOIN, PARALLEL HASH_JOIN, PARALLEL STRAIGHT_JOIN; LEFT / RIGHT x {JOIN, HASH_JOIN, PARALLEL JOIN, PARALLEL HASH_JOIN}; PARALLEL ones three times; every run once more with the left side's numeric keys held as Go ints against float64 on the right - and every other right row an int as well, so that one side holds the same number under two Go types) and the result compared as a multiset with the exported textbook result. Non-trivial: non-empty join result; distinct = distinct (tables, ON, type).",
 		Assumptions: baseAssumptions,
-		Quick:       []legCfg{mc("allons", "MC_C04", "C04_quick.cfg", 15*time.Minute), mc("rows2", "MC_C04", "C04_quick2.cfg", 15*time.Minute), mc("wide", "MC_C04", "C04_wide.cfg", 15*time.Minute), mc("big", "MC_C04", "C04_big.cfg", 15*time.Minute), mc("many", "MC_C04", "C04_many.cfg", 15*time.Minute), tr("joins", "EngineTrace", 250, 4)},
+		Quick:       []legCfg{mc("allons", "MC_C04", "C04_quick.cfg", 15*time.Minute), mc("rows2", "MC_C04", "C04_quick2.cfg", 15*time.Minute), mc("wide", "MC_C04", "C04_wide.cfg", 15*time.Minute), mc("big2", "MC_C04", "C04_big2.cfg", 15*time.Minute), mc("many", "MC_C04", "C04_many.cfg", 15*time.Minute), tr("joins", "EngineTrace", 250, 4)},
 		Thorough:    []legCfg{mc("joins", "MC_C04", "C04_full2.cfg", 30*time.Minute), mc("wide", "MC_C04", "C04_wide.cfg", 15*time.Minute), mc("big", "MC_C04", "C04_big.cfg", 15*time.Minute), mc("big2", "MC_C04", "C04_big2.cfg", 15*time.Minute), mc("many", "MC_C04", "C04_many.cfg", 15*time.Minute), mc("rows3", "MC_C04", "C04_thorough.cfg", 90*time.Minute), tr("joins", "EngineTrace", 1500, 12)},
 	},
 	"C14": {
@@ -306,7 +313,7 @@ var props = map[string]*propCfg{
 	"C10": {
 		ID: "C10", Level: "exploration",
 		Rule:        "Contain.tla models one New + Exec call passing through its regions with a panic possible at every step in the API goroutine and in every background goroutine (strategy calls, PARALLEL join workers) and a re-entrant CTE resolution; TLC checks that the process survives, nothing escapes the API and the call returns, and that removing any one recover (or the CTE guard) violates that - the five deviation configurations are the pinned tree's gaps. Binding by exploration: TLC enumerates the matrix of 114 constructs (every unsupported / malformed / failing construct the property names and many more: joins without condition, chained unions, self- and mutually-referencing CTEs, unbalanced brackets, out-of-range FROM paths, PARALLEL joins and ASYNC / SPIN / SPINASYNC / ONCE calls whose function fails or panics with an error or a non-error value, panics inside CTE bodies / derived tables / subqueries, DISTINCT over a subquery plus *, CTEs over dual read with DISTINCT / UNION / ORDER BY, deep nesting, malformed and non-SELECT statements, NUL bytes, invalid UTF-8, ...) x all 8 combinations of Wrapped / PostgresEscapingDialect / IdiomaticArrays x {well-shaped, empty, wrong-shaped, wide (40 rows), grid (rows that are arrays)} documents; every cell is executed, followed by 6 (thorough: 60) seeded byte-level mutations of its text: New / Exec must return. A panic escaping the API is caught by the worker; a dying process (goroutine panic, fatal error, stack overflow) or a case exceeding its time limit is attributed to the cell by the orchestrator. Non-trivial: every cell; distinct = distinct (construct, options, document).",
-		Assumptions: append([]string{"'for all byte strings' is sampled: the exact matrix cells plus seeded mutations around them; inputs the harness does not run are not decided", "a hang is a case that does not answer within 20 s"}, baseAssumptions...),
+		Assumptions: append([]string{"'for all byte strings' is sampled: the exact matrix cells plus seeded mutations around them; inputs the harness does not run are not decided", "a hang is a case (the exact text and its mutations) that does not answer within 60 s (thorough: 240 s)"}, baseAssumptions...),
 		Quick: []legCfg{
 			{Kind: "mc", Name: "contain", Module: "Contain", Cfg: "Contain_ok.cfg", Timeout: 5 * time.Minute, TLCWorkers: 2, NoExport: true},
 			{Kind: "mc", Name: "dev_new", Module: "Contain", Cfg: "Contain_dev_new.cfg", Timeout: 5 * time.Minute, TLCWorkers: 1, NoExport: true, Expect: "NothingEscapes"},
